@@ -3,6 +3,7 @@
 from __future__ import annotations
 
 import ast
+import copy
 
 from .. import norm
 from ..ctx import Ctx
@@ -463,6 +464,55 @@ def remote_missing(ctx: Ctx, rule: str) -> None:
                "'unexpected characters', and upload_remote (which compares first) can never upload a state that is new on the remote side")
 
 
+def missing_pool_download(ctx: Ctx, rule: str) -> None:
+    """A download whose pool file is missing must not end as 'already available': compare_local maps a missing file to the same
+    empty hash on both sides, so with cache and pool file both absent the comparison says 'match'; the skip of download_local is
+    then a silent success that leaves no file (an incomplete backing chain is 'downloaded')."""
+    fref = f"{OPS}.compare_local"
+    fn = ctx.repo.func(fref)
+    ctx.touch(fref)
+    params = fn.params()
+    # the values the two sides take when their file is missing
+    missing = {}
+    for v in function_views(ctx, fref, None):
+        if v.path.exit != "return" or v.path.exit_node.value is None:
+            continue
+        val = v.canon(copy.deepcopy(v.path.exit_node.value), len(v.steps))
+        conds = norm.conj([v.cond_formula(i) for i, st in enumerate(v.steps) if st.kind == "cond"])
+        for side, prm in (("cache", params[0]), ("pool", params[1])):
+            if norm.implies(conds, ("not", ("atom", f"os.path.exists({prm})"))):
+                missing.setdefault(side, []).append(ast.unparse(val))
+    both_equal = False
+    for v in function_views(ctx, fref, None):
+        if v.path.exit != "return" or v.path.exit_node.value is None:
+            continue
+        conds = norm.conj([v.cond_formula(i) for i, st in enumerate(v.steps) if st.kind == "cond"])
+        if norm.implies(conds, ("not", ("atom", f"os.path.exists({params[0]})"))) and norm.implies(conds, ("not", ("atom", f"os.path.exists({params[1]})"))):
+            val = v.canon(copy.deepcopy(v.path.exit_node.value), len(v.steps))
+            if isinstance(val, ast.Compare) and len(val.ops) == 1 and isinstance(val.ops[0], ast.Eq) and ast.dump(val.left) == ast.dump(val.comparators[0]):
+                both_equal = True
+            elif isinstance(val, ast.Constant) and val.value is True:
+                both_equal = True
+    dref = f"{OPS}.download_local"
+    dfn = ctx.repo.func(dref)
+    ctx.touch(dref)
+    dparams = dfn.params()
+    n_skip, bad = 0, None
+    views = function_views(ctx, dref, None)
+    for v in views:
+        if v.path.exit == "return" and any(call_name(c) == "compare_local" for _, c in v.calls(lambda c: True)) and not any(call_name(c) == "copy" for _, c in v.calls(lambda c: True)):
+            n_skip += 1
+            prem = v.premise(len(v.steps), 0)
+            if both_equal and not norm.implies(prem, ("atom", f"os.path.exists({dparams[1]})")):
+                bad = v
+    if n_skip == 0:
+        raise AnalysisError(f"{dref}: no 'already available' skip path found")
+    ctx.record(rule, "GUARD", dref, "the 'already available' skip of a download is not reachable with the pool file missing (compare_local answers 'equal' when both files are absent)",
+               bad is None, {"skip_paths": n_skip, "both_missing_compare_equal": both_equal},
+               "" if bad is None else "download_local reports a missing pool file as already available when the cache file is missing too (both map to the empty hash): "
+               "transfer_chain 'downloads' a chain whose backing file exists nowhere")
+
+
 def whole_file_compare(ctx: Ctx, rule: str) -> None:
     """'Skips the copy when both already match' and 'destination byte-identical' need a comparison of the complete files."""
     n = 0
@@ -492,6 +542,7 @@ def run(ctx: Ctx) -> None:
 
     ctx.call(whole_file_compare, "2h")
     ctx.call(remote_missing, "8m")
+    ctx.call(missing_pool_download, "8d")
     ctx.call(transfer_details, "8")
 
     ctx.call(fresh_checksums, "2f")
@@ -507,6 +558,7 @@ def run(ctx: Ctx) -> None:
 
 
 MUTANTS = [
+    ('missing-pool-file-already-available', 'states/pool.py', '            if not os.path.exists(pool_path):\n                raise FileNotFoundError(f"Cannot download a missing {pool_path}")\n', '', '8d'),
     ("link-upload-raises-before-compare", POOL, "            if TransferOps.compare_link(cache_path, pool_path, params):\n                logging.info(f\"Skip upload of an already linked {cache_path}\")\n                return\n", "", "4k"),
     ("download-writes-through-link", POOL, "            if os.path.islink(cache_path):\n                os.unlink(cache_path)\n            shutil.copy(pool_path, cache_path)", "            shutil.copy(pool_path, cache_path)", "4d"),
     ("remote-compare-hashes-missing", POOL, "        if status == 0:\n            remote_hash = ops.hash_file(session, path, \"1M\", \"md5\")\n        else:\n            remote_hash = \"\"\n", "        remote_hash = ops.hash_file(session, path, \"1M\", \"md5\")\n", "8m"),
